@@ -7,6 +7,7 @@ import (
 	"reflect"
 	"sort"
 	"strconv"
+	"strings"
 	"time"
 	_ "time/tzdata"
 	"unsafe"
@@ -341,11 +342,21 @@ func expDate(d Date, loc *time.Location) NTime {
 	return nt(time.Date(d.Y, time.Month(d.M), d.D, 0, 0, 0, 0, loc))
 }
 
+// Value is the number the text denotes (surrounding spaces ignored). The stored V is informational:
+// the oracle always derives the value from the text that is rendered into the file.
+func (v FloatVal) Value() float64 {
+	f, err := strconv.ParseFloat(strings.TrimSpace(v.Text), 64)
+	if err != nil {
+		panic("sgen: float text does not parse: " + v.Text)
+	}
+	return f
+}
+
 func optFloat(v FloatVal) *uint64 {
 	if v.Text == "" {
 		return nil
 	}
-	b := math.Float64bits(v.V)
+	b := math.Float64bits(v.Value())
 	return &b
 }
 
@@ -486,7 +497,7 @@ func Expect(f *Feed, o Options) NStatic {
 		sort.SliceStable(rows, func(a, b int) bool { return rows[a].Seq < rows[b].Seq })
 		ns := NShape{ID: id}
 		for _, r := range rows {
-			ns.Points = append(ns.Points, NPoint{Lat: math.Float64bits(r.Lat.V), Lon: math.Float64bits(r.Lon.V), Dist: optFloat(r.Dist)})
+			ns.Points = append(ns.Points, NPoint{Lat: math.Float64bits(r.Lat.Value()), Lon: math.Float64bits(r.Lon.Value()), Dist: optFloat(r.Dist)})
 		}
 		n.Shapes = append(n.Shapes, ns)
 		shapeIdx[id] = i
